@@ -163,4 +163,11 @@ theorem extractReport_spec (P : Prims) (hP : Proofs.NasProtect.PrimsOk P) (ctx :
   show Except.ok ({ ip := ueIp, teid := beNat (natBE 4 teid), upf := upfIp } : Report) = _
   rw [beNat_natBE4 teid hteid]
 
+/-- the hypotheses of `extractReport_spec` are satisfiable: the protected NAS message exists for every plain message -/
+example : ∃ n, Spec.AmfDl.protectAt Proofs.NasProtect.toyPrims { ia := 2, ea := 0, kNasInt := [1], kNasEnc := [2] } 3
+    (Spec.AmfDl.dlNasTransportAccept 5 1 [10, 45, 0, 2]) = some n := by
+  obtain ⟨mac, sqn, _, h⟩ := protectAt_eq Proofs.NasProtect.toyPrims Proofs.NasProtect.toyPrims_ok
+    { ia := 2, ea := 0, kNasInt := [1], kNasEnc := [2] } rfl rfl 3 (Spec.AmfDl.dlNasTransportAccept 5 1 [10, 45, 0, 2])
+  exact ⟨_, h⟩
+
 end Stgutg.Proofs.EmulatorDlLife
